@@ -135,6 +135,22 @@ PROPS = {
         assumptions=["single goroutine: the quantifier is over histories, no schedule is involved (the concurrent side of the symbol table is C16)",
                      "the model enumerates a file's symbols with protocompile's own walk.Descriptors", "seeded sampling of histories, not exhaustive"],
     ),
+    "C16": dict(
+        level="exploration", components="symbols",
+        parts=[dict(test="TestC16R", engine="R", quick_checks=1500, thorough_checks=60000),
+               dict(test="TestC16B", engine="B", quick_checks=500, thorough_checks=20000)],
+        thorough_timeout=7200,
+        rule="part R: a case = 2-4 worker goroutines x 1-5 operations each from {Import(file) via linker-result and protodesc paths, Lookup, "
+             "LookupExtension, AddExtension, AddExtensionDeclaration} on one shared linker.Symbols over a pool of 15 colliding files x 2 "
+             "representations, run under the race detector by a seeded serialising scheduler whose hand-offs create no happens-before "
+             "edges (yield points before every lock acquisition of symbols.go); part B: a case = generated workload (optionally with a "
+             "duplicate symbol / duplicate extension number / message-vs-package collision) partitioned into 2-3 compilations sharing one "
+             "table, run sequentially (later ones get earlier results as descriptors) or as concurrent Compile clients under a seeded "
+             "schedule, compared with one compilation of everything; distinct = distinct (operations or workload+partition, trace hash); "
+             "non-trivial = (R) at least two imports by at least two workers, (B) the all-together compilation reports a collision",
+        assumptions=_ASSUME_B + ["engine R: race reports are ThreadSanitizer's; a race between two accesses is only reported if no lock/atomic of the code under test orders them in the explored schedule",
+                                 "a collision between two files counts as found when at least one import call of either file fails (which one is schedule-dependent)"],
+    ),
 }
 
 _PURE = "pure function of its input (no schedule, clock, fault or interleaving can change the answer): not a deterministic-simulation target; see DESIGN.md section 4"
@@ -146,9 +162,19 @@ NOT_APPLICABLE = {
     "C39": _PURE, "C40": _PURE + " (histories over a single-threaded structure are just inputs; nothing to inject)", "C41": _PURE,
 }
 _P = "simulation applies (DESIGN.md section 3) but the check is still under construction in this round; not claimed until it runs"
-PENDING = {k: _P for k in ["C16", "C38"]}
+PENDING = {k: _P for k in ["C38"]}
 
 MANIFEST_TEXT = {
+    "C16": dict(
+        technique="deterministic simulation under the race detector with happens-before-transparent scheduling (engine R) plus partitioned-compilation simulation (engine B)",
+        design_ref="DESIGN.md 3.6",
+        level_text="R: seeded interleavings of Import/Lookup/AddExtension callers at every lock acquisition of the symbol table, "
+                   "executed serially but without the scheduler adding happens-before edges, so the race detector reports any pair "
+                   "of accesses the table's own locks do not order; logical oracle: no lost symbols, no missed and no spurious "
+                   "collisions. B: the same file set compiled together and split across compilations sharing the table must agree on "
+                   "whether a collision is reported.",
+        level_note="Trusted: both schedulers, ThreadSanitizer, the pairwise conflict model of the file pool.",
+    ),
     "C17": dict(
         technique="seeded operation histories checked step by step against an executable reference model (flat map of committed files)",
         design_ref="DESIGN.md 3.7",
